@@ -356,7 +356,9 @@ class Pipeline(Machine):
                 ex["descriptions"] += 1
                 ex["descriptions_rejected"] += 1
                 model["_abstract"] = "child-rejected"
-                return []
+                return [violation(prop, "valid-operation-failed", op["i"],
+                                  f"create refused the valid generated description of dependency {dname}: {oc.cls} {oc.exc_type}: "
+                                  f"{oc.exc_msg}", cls="unexpected-failure", site=oc.site)]
             de["alone"] = host.read(child_rel)
             de["rel"] = child_rel
             env = desc["SUIT_Envelope_Tagged"]
@@ -442,8 +444,13 @@ class Pipeline(Machine):
                 return []
         model["_abstract"] = ("create", op["entry"], op["fmt"], bool(dep_exp), tuple(sorted({r["form"] for r in refs})), o.cls)
         if not o.ok:
-            if not faulted:
+            if not faulted and o.cls != "crash":
+                # thousands of generated descriptions per batch and not one is refused on the repaired tree: the generator
+                # speaks the tool's language, so a refusal is a failure of a valid operation, not a stale generator
                 ex["descriptions_rejected"] += 1
+                return [violation(prop, "valid-operation-failed", op["i"],
+                                  f"create ({op['entry']}, {op['fmt']}) refused a valid generated description (features "
+                                  f"{op['features']}): {o.cls} {o.exc_type}: {o.exc_msg}", cls="unexpected-failure", site=o.site)]
             return []
         ex["creates_ok"] += 1
         if faulted:
